@@ -410,7 +410,7 @@ Definition op_writes (o : op) : list N :=
   | OClone _ d | OCloneFrom d _ => [d]
   | OEq a _ => [a]
   | OSetAlg _ a _ | OSetPred _ a _ => [a]
-  | OParIter s _ _ _ | OParExtend s _ => [s]
+  | OParIter s _ _ _ | OParExtend s _ | OSerialize s | ODeserInPlace s _ _ => [s]
   end.
 
 Lemma T_C11_independent c w t o w' i :
@@ -447,6 +447,8 @@ Proof.
   - destruct Hs as (ma & mb & _ & _ & -> & _). reflexivity.
   - destruct Hs as (ma & mb & _ & _ & -> & _). reflexivity.
   - destruct Hs as (m & l & _ & _ & _ & _ & ->). apply lookup_insert_ne. congruence.
+  - destruct Hs as (m & _ & [[_ ->]|[_ [m' ->]]]); apply lookup_insert_ne; congruence.
+  - destruct Hs as (m & l & _ & _ & _ & _ & ->). reflexivity.
   - destruct Hs as (m & _ & [[_ ->]|[_ [m' ->]]]); apply lookup_insert_ne; congruence.
 Qed.
 
@@ -875,6 +877,61 @@ Proof.
   exfalso. unfold step in Hrun. rewrite Eop in Hrun. destruct (with_slot_h _ _ _ _ _); discriminate.
 Qed.
 
+(* ---------------------------------------------------------------- C16 *)
+
+(* Serialize (collect_map / collect_seq over iter()): the declared length is exact, every
+   element is emitted exactly once, in iteration order; the collection is unchanged *)
+Lemma T_C16_serialize c w t s o w' :
+  0 < cR c -> WInv c w -> t_op t = OSerialize s -> step c w t = Ok o w' ->
+  WInv c w' /\ exists (m : gmap N elem) l, wabs w !! s = Some m /\ NoDup (map ek l) /\ list_to_emap l = m /\
+    o = OutS [OutN (N.of_nat (length l)); OutL (map elem3 l)] /\ wabs w' = wabs w.
+Proof.
+  intros HR HW Eop Hrun. assert (Hc : core_op (t_op t)) by (rewrite Eop; exact I).
+  destruct (T_step_ok c w t o w' HR HW Hc Hrun) as [HW' Hs]. rewrite Eop in Hs. auto.
+Qed.
+
+(* Deserialize (a map or set built with the cautious size hint, then one insert per element):
+   the collection of the elements read, whatever the hint *)
+Lemma T_C16_deserialize c w t d hs items hint o w' :
+  0 < cR c -> WInv c w -> t_op t = OFromIter d hs items (cautious hint) -> step c w t = Ok o w' ->
+  WInv c w' /\ wabs w' = <[d := ext ∅ items]> (wabs w).
+Proof.
+  intros HR HW Eop Hrun. assert (Hc : core_op (t_op t)) by (rewrite Eop; exact I).
+  destruct (T_step_ok c w t o w' HR HW Hc Hrun) as [HW' Hs]. rewrite Eop in Hs. cbn [spec_rel] in Hs.
+  split; [exact HW'|]. destruct Hs as [[_ ->]|[-> _]]; [reflexivity|].
+  exfalso. unfold step in Hrun. rewrite Eop in Hrun. destruct (with_slot _ _ _ _ _); discriminate.
+Qed.
+
+(* the round trip: deserialising what Serialize emitted yields the original collection - in
+   whatever resize phase it was serialised *)
+Lemma T_C16_roundtrip (m : gmap N elem) (l : list elem) :
+  NoDup (map ek l) -> list_to_emap l = m -> ext ∅ (map elem3 l) = m.
+Proof. intros Hnd <-. apply ext_roundtrip. exact Hnd. Qed.
+
+Lemma T_C16_roundtrip_world c w t s o w1 w2 t2 d hs hint o2 w3 items n :
+  0 < cR c -> WInv c w -> t_op t = OSerialize s -> step c w t = Ok o w1 -> o = OutS [OutN n; OutL items] ->
+  WInv c w2 -> t_op t2 = OFromIter d hs items (cautious hint) -> step c w2 t2 = Ok o2 w3 ->
+  wabs w3 !! d = wabs w !! s.
+Proof.
+  intros HR HW E1 R1 Ho HW2 E2 R2.
+  destruct (T_C16_serialize c w t s o w1 HR HW E1 R1) as (_ & m & l & Hm & Hnd & Hl & Ho' & _).
+  rewrite Ho in Ho'. injection Ho' as _ Hit.
+  destruct (T_C16_deserialize c w2 t2 d hs items hint o2 w3 HR HW2 E2 R2) as [_ Hw3].
+  rewrite Hw3, lookup_insert, Hm, Hit. f_equal. apply T_C16_roundtrip; assumption.
+Qed.
+
+(* HashSet::deserialize_in_place: the previous contents - whatever they were, in whatever resize
+   phase - are replaced entirely by the elements read *)
+Lemma T_C16_in_place c w t s items hint o w' :
+  0 < cR c -> WInv c w -> t_op t = ODeserInPlace s items hint -> step c w t = Ok o w' ->
+  WInv c w' /\ exists m : gmap N elem, wabs w !! s = Some m /\ wabs w' = <[s := ext ∅ items]> (wabs w).
+Proof.
+  intros HR HW Eop Hrun. assert (Hc : core_op (t_op t)) by (rewrite Eop; exact I).
+  destruct (T_step_ok c w t o w' HR HW Hc Hrun) as [HW' Hs]. rewrite Eop in Hs. cbn [spec_rel] in Hs.
+  split; [exact HW'|]. destruct Hs as (m & Hm & [[_ ->]|[-> _]]); [eauto|].
+  exfalso. unfold step in Hrun. rewrite Eop in Hrun. destruct (with_slot_h _ _ _ _ _); discriminate.
+Qed.
+
 (* ---------------------------------------------------------------- C17 *)
 
 (* the model has one behaviour for both build profiles: nothing in it reads the profile flag *)
@@ -951,6 +1008,8 @@ Proof.
   - destruct Hs as (m & _ & H & _). discriminate.
   - destruct Hs as (ma & mb & _ & _ & _ & l & H & _). discriminate.
   - destruct Hs as (ma & mb & _ & _ & _ & bb & H & _). discriminate.
+  - destruct Hs as (m & l & _ & _ & _ & H & _). discriminate.
+  - destruct Hs as (m & _ & [[H _]|[H _]]); [discriminate|injection H as ->; auto].
   - destruct Hs as (m & l & _ & _ & _ & H & _). discriminate.
   - destruct Hs as (m & _ & [[H _]|[H _]]); [discriminate|injection H as ->; auto].
 Qed.
